@@ -1,5 +1,7 @@
 import Gtree.Model.Api
 import Gtree.Lemmas.MkdirVerify
+import Gtree.Lemmas.MkInterleave
+import Gtree.Lemmas.VerifyExt
 /-
   C08 — verify reports exactly the differences (over the finite-map file system model).
   `verifyRootsApi` returns only an `Option Err`: it has no file-system result, i.e. it cannot change
@@ -123,3 +125,32 @@ example : FS.Closed [] ∧ FS.Canon [] :=
   ⟨fun _ _ h => absurd rfl h, fun _ h => absurd rfl h⟩
 
 end Gtree
+
+namespace Gtree
+/-- the verifier's verdict depends on the file system only through `lookup` -/
+theorem C08_verdict_depends_on_lookup_only (a b : FS) (h : ∀ p, a.lookup p = b.lookup p) (target : Bytes) (strict : Bool)
+    (roots : List (List Visit)) :
+    verifyRoots a target strict roots = none ↔ verifyRoots b target strict roots = none :=
+  verifyRoots_none_ext h target strict roots
+
+/-- **"A tree just created by Mkdir with any extension list verifies strictly" — also when it was created in
+    the massive mode, whatever the schedule**: after ANY interleaving of the roots' file-system operations the
+    forest verifies, strictly as well, against the file system they left. -/
+theorem C08_mkdir_then_verify_massive (f : Fmt) (exts : List Bytes) (ts : List Bytes) (roots : List T) (fs : FS) (strict : Bool)
+    (hts : GoodList ts) (hg : AllGoodL roots) (hd : DistinctL roots) (hc : fs.Closed) (hcanon : fs.Canon)
+    (hnf : ∀ i < ts.length, notFile fs (key (ts.take (i + 1))))
+    (hnone : anyRootExists fs (key ts) (roots.map (growRoot f)) = false)
+    (r : List EOp) (hint : Interleave (roots.map (fun t => opsTree exts ts t)) r) :
+    ∃ s, runE fs r = (s, none) ∧ verifyRoots s (key ts) strict (roots.map (growRoot f)) = none := by
+  have habs := nodes_absent f exts ts roots fs hts hg hc hnone
+  obtain ⟨s, hrun, hsame⟩ := interleave_same exts ts roots fs hts hg hd hnf habs r hint
+  refine ⟨s, hrun, ?_⟩
+  have hseq := C08_mkdir_then_verify f exts ts roots fs strict hts hg hd hc hcanon hnf hnone
+  have hF : ∀ p, s.lookup p = (mkdirRoots fs (key ts) exts (roots.map (growRoot f))).1.lookup p := by
+    intro p
+    rw [hsame p]
+    simp only [mkdirRoots, hnone, Bool.false_eq_true, if_false]
+    rw [mkdirRoots_go_forest f exts ts hts roots fs hg]
+  exact (verifyRoots_none_ext hF (key ts) strict _).mpr hseq
+end Gtree
+
